@@ -109,9 +109,24 @@ def run_case(case):
                                                     }.get(c, c) for c in case["comps"])
     env = dict(os.environ, LD_PRELOAD=CFG["shim"], COPIA_SHIM_ROOTS="/", COPIA_SHIM_LOG=os.path.join(d, "log"), RUST_LOG="off")
 
-    def serve(reqs, logname):
+    def serve(reqs, logname, errmode=0):
+        """errmode: where the hub's stderr goes - 0 a pipe that is read, 1 a full device, 2 a pipe nobody holds the other end of
+        (a daemon's stderr is often one of the latter two; a refusal that is also *logged* must still be answered)"""
         env["COPIA_SHIM_LOG"] = os.path.join(d, logname)
-        p = subprocess.run([CFG["copia"], "serve", root], input=_session(reqs), stdout=subprocess.PIPE, stderr=subprocess.PIPE, env=env, timeout=60)
+        err, closeme = subprocess.PIPE, []
+        if errmode == 1:
+            err = open("/dev/full", "wb")
+            closeme.append(err)
+        elif errmode == 2:
+            rfd, wfd = os.pipe()
+            os.close(rfd)
+            err = os.fdopen(wfd, "wb")
+            closeme.append(err)
+        try:
+            p = subprocess.run([CFG["copia"], "serve", root], input=_session(reqs), stdout=subprocess.PIPE, stderr=err, env=env, timeout=60)
+        finally:
+            for f in closeme:
+                f.close()
         return p, _parse(p.stdout)
 
     # calibration: what an empty session touches (runtime start-up, the root itself)
@@ -122,7 +137,9 @@ def run_case(case):
         white.add((x["call"], x["path"]))
     before_parent = {k: v for k, v in _tree(parent).items() if not k.startswith("served")}
     before_root = _tree(root)
-    p, replies = serve([("get", pstr), ("put", pstr, "c2"), ("delete", pstr, None)] + PROBE, "log")
+    import zlib
+    errmode = zlib.crc32(pstr.encode("utf8", "surrogatepass")) % 3
+    p, replies = serve([("get", pstr), ("put", pstr, "c2"), ("delete", pstr, None)] + PROBE, "log", errmode)
     after_parent = {k: v for k, v in _tree(parent).items() if not k.startswith("served")}
     outside = []
     for ln in open(os.path.join(d, "log")):
@@ -156,7 +173,7 @@ def run_case(case):
     refused = len(three) == 3 and errs[0] is not None and errs[0] != "not found" and errs[0] == errs[1] == errs[2]
     rec = {"abs": case["abs"], "comps": case["comps"], "path": pstr[:120], "outside": outside[:5], "sentinels_ok": before_parent == after_parent,
            "refused_by_server": refused, "alive": p.returncode == 0 and len(replies) >= 7, "exit": p.returncode,
-           "tree_unchanged": True, "probe_equal": True, "replies": [str(v)[:80] for v in three]}
+           "tree_unchanged": True, "probe_equal": True, "stderr_mode": errmode, "replies": [str(v)[:80] for v in three]}
     if refused:
         # nothing created for the refused path: only the probe's own file may have appeared
         after_root = {k: v for k, v in _tree(root).items() if k not in ("probe",) and not k.startswith(".copia")}
